@@ -6,7 +6,7 @@ import coqfmt as cf
 RULE = ("cases = (a) random nestings of chain / tree / stack / concatenate (depth <= 3, <= 8 variables, elements of "
         "DIFFERENT diameters stacked together) with random edge values incl. invalid ones, over plain AValue[m..] and "
         "ATally[n,K,C] types: value at every assignment and modelcount; (b) random OPERATION SEQUENCES (length <= 4) of "
-        "sum with a re-randomised copy or a chain and restrict of any variable to any value, applied to the diagram "
+        "sum with a re-randomised copy or a chain and restrict of any variable to any value (40% with inplace=True; the copying mode must leave its operand unchanged), applied to the diagram "
         "dumped from the implementation: value table and modelcount after EVERY step; (c) value types: the whole domain, "
         "operator.index of every element, x+y and x-y for all pairs with valid x (out-of-place and in-place), equality, "
         "hashing after in-place updates, dictionary lookups. Compared are semantics, never array layouts. "
@@ -39,7 +39,7 @@ def gen(rng, tier):
         cur = nv
         for _ in range(rng.randint(1, 4)):
             if cur >= 1 and rng.random() < 0.55:
-                ops.append(["restrict", rng.randrange(cur), rng.randint(0, 1)])
+                ops.append(["restrict", rng.randrange(cur), rng.randint(0, 1), rng.random() < 0.4])   # 40% in place
                 cur -= 1
                 if cur == 0:
                     break
@@ -47,6 +47,14 @@ def gen(rng, tier):
                 ops.append(["sum", rng.choice(["copy", "chain", "tree"]), rng.randrange(1 << 30)])
         cases.append({"kind": "ops", "type": rand_type(rng), "seed": rng.randrange(1 << 30), "nv": nv,
                       "shape": rng.choice(["chain", "tree", "nested"]), "ops": ops})
+    # in-place restricts of inner variables of trees (several nodes per level with different edge values)
+    for _ in range(N // 3):
+        nv = rng.randint(3, 5)
+        ops = [["restrict", rng.randrange(1, nv), rng.randint(0, 1), True]]
+        if rng.random() < 0.5:
+            ops.append(["restrict", rng.randrange(1, nv - 1), rng.randint(0, 1), rng.random() < 0.5])
+        cases.append({"kind": "ops", "type": rand_type(rng), "seed": rng.randrange(1 << 30), "nv": nv,
+                      "shape": rng.choice(["tree", "tree", "nested"]), "ops": ops})
     for _ in range({"quick": 8, "search": 20, "thorough": 40}[tier]):
         cases.append({"kind": "val", "type": rand_type(rng), "seed": rng.randrange(1 << 30)})
     return cases
@@ -170,7 +178,13 @@ def run_impl(c):
         tables, counts, others = [table_of(d)], [[int(x) for x in d.modelcount()]], []
         for op in c["ops"]:
             if op[0] == "restrict":
-                d = d.restrict(d.units[op[1]], op[2])
+                if len(op) > 3 and op[3]:
+                    d = d.restrict(d.units[op[1]], op[2], inplace=True)      # the non-default in-place mode
+                else:
+                    keep = copy.deepcopy(d)
+                    d2 = d.restrict(d.units[op[1]], op[2])
+                    assert table_of(d) == table_of(keep), "restrict() without inplace changed its operand"
+                    d = d2
                 others.append(None)
             else:
                 rr = np.random.RandomState(op[2])
